@@ -9,4 +9,7 @@ MCContent == [i \in 1 .. MCLen |-> 10 + i]
 \* boundary offsets (TLC cfg files cannot hold negative literals)
 MCOffsets == {-(MCLen + 1), -MCLen, -K, -1, 0, 1, K - 1, K, K + 1, MCLen - 1, MCLen, MCLen + 1, MCLen + K}
 MCKs == {0, 1, K, K + 1, MCLen + 1}
+\* a reduced alphabet for longer histories
+MCOffsetsSmall == {0, K + 1, MCLen - 1}
+MCKsSmall == {1, K + 1}
 =============================================================================
